@@ -1719,3 +1719,109 @@ async fn block_bundled_at_the_rebroadcast_height_is_accepted_by_its_own_node() {
         .await;
     if !(matches!(result, AddBlockResult::BlockAddedSuccessfully(_, true, _))) { witness(format!("the block a staking node with enough spendable funds bundles must be accepted by the node itself, but since 6037037 the wallet stakes the output that is listed past its retention window, the staking transaction is dropped and the block (staking transactions in it : {:?}) is refused", staking_txs)); }
 }
+
+/// C10: bytes from disk are rejected, never crash: a block file that decodes but cannot be generated
+#[tokio::test]
+#[serial_test::serial]
+async fn block_file_with_one_corrupt_byte_is_refused_by_the_disk_loader() {
+    #[allow(unused_imports)] use crate::core::util::test::test_manager::test::TestManager;
+    #[allow(unused_imports)] use crate::core::consensus::block::Block;
+    use crate::core::consensus::block::{BlockType, BLOCK_HEADER_SIZE};
+    use crate::core::consensus::mempool::Mempool;
+    use crate::core::consensus::slip::{Slip, SLIP_SIZE};
+    use crate::core::consensus::transaction::{Transaction, TRANSACTION_SIZE};
+    use crate::core::consensus::wallet::Wallet;
+    use crate::core::io::storage::Storage;
+    use crate::core::util::crypto::generate_keys;
+    use crate::core::util::test::test_io_handler::test::TestIOHandler;
+    use std::sync::Arc;
+    use tokio::sync::RwLock;
+
+    let t = TestManager::default();
+    let (public_key, private_key) = generate_keys();
+
+    // a block with one transaction that spends two outputs of the same earlier transaction
+    // (same key, same block id, same ordinal, same amount: they differ in slip_index only)
+    let mut tx = Transaction::default();
+    for slip_index in 0..2u8 {
+        let mut input = Slip::default();
+        input.public_key = public_key;
+        input.amount = 500;
+        input.block_id = 3;
+        input.tx_ordinal = 0;
+        input.slip_index = slip_index;
+        tx.from.push(input);
+    }
+    let mut output = Slip::default();
+    output.public_key = public_key;
+    output.amount = 1000;
+    tx.to.push(output);
+    tx.sign(&private_key);
+
+    let mut block = Block::new();
+    block.id = 7;
+    block.timestamp = crate::core::util::test::test_manager::test::create_timestamp();
+    block.previous_block_hash = [9; 32];
+    block.creator = public_key;
+    block.transactions.push(tx);
+    let honest_bytes = block.serialize_for_net(BlockType::Full);
+
+    // the hostile edit: ONE byte, the slip_index of the second input, 1 -> 0
+    let offset = BLOCK_HEADER_SIZE + TRANSACTION_SIZE + SLIP_SIZE + 57;
+    assert_eq!(honest_bytes[offset], 1, "setup: offset of second input's slip_index");
+    let mut corrupt_bytes = honest_bytes.clone();
+    corrupt_bytes[offset] = 0;
+
+    // setup sanity: both buffers decode; generate() is Ok for the honest one and a plain Err (no
+    // panic) for the corrupt one
+    let mut honest_block = Block::deserialize_from_net(&honest_bytes).expect("honest decodes");
+    assert!(honest_block.generate().is_ok(), "setup: honest block generates");
+    let mut corrupt_block = Block::deserialize_from_net(&corrupt_bytes).expect("corrupt decodes");
+    assert!(
+        corrupt_block.generate().is_err(),
+        "setup: generate() reports the corrupt block with an error"
+    );
+
+    let block_dir = "./data/blocks/";
+    let honest_name = "audit_demo_c10_honest.sai".to_string();
+    let corrupt_name = "audit_demo_c10_corrupt.sai".to_string();
+    t.storage
+        .io_interface
+        .write_value((block_dir.to_string() + &honest_name).as_str(), &honest_bytes)
+        .await
+        .unwrap();
+    t.storage
+        .io_interface
+        .write_value((block_dir.to_string() + &corrupt_name).as_str(), &corrupt_bytes)
+        .await
+        .unwrap();
+
+    // control: the honest file is loaded into the mempool's block queue
+    let keys = generate_keys();
+    let wallet_lock = Arc::new(RwLock::new(Wallet::new(keys.1, keys.0)));
+    let mempool_lock = Arc::new(RwLock::new(Mempool::new(wallet_lock.clone())));
+    let mut storage = Storage::new(Box::new(TestIOHandler::new()));
+    storage
+        .load_blocks_from_disk(&[honest_name.clone()], mempool_lock.clone())
+        .await;
+    assert_eq!(
+        mempool_lock.read().await.blocks_queue.len(),
+        1,
+        "control: the honest block file is loaded"
+    );
+
+    // the corrupt file, in a task of its own so that a panic is observed and not propagated
+    let mempool_lock2 = Arc::new(RwLock::new(Mempool::new(wallet_lock.clone())));
+    let names = vec![corrupt_name.clone()];
+    let handle = tokio::spawn(async move {
+        let mut storage = Storage::new(Box::new(TestIOHandler::new()));
+        storage.load_blocks_from_disk(&names, mempool_lock2).await;
+    });
+    let result = handle.await;
+
+    let _ = std::fs::remove_file(block_dir.to_string() + &honest_name);
+    let _ = std::fs::remove_file(block_dir.to_string() + &corrupt_name);
+
+    let panicked = matches!(&result, Err(e) if e.is_panic());
+    if !(!panicked) { witness(format!("Storage::load_blocks_from_disk panicked on a block file that differs from a valid one in 1 byte (slip_index of input 2 at offset {} set from 1 to 0): Block::generate() returned Err(double-spend) and the loader unwraps it, so bytes from disk crash the node at startup instead of being rejected", offset)); }
+}
